@@ -37,7 +37,7 @@ import (
 )
 
 type kase struct {
-	Kind string `json:"kind"` // verify | rt | pair | rel | seq
+	Kind string `json:"kind"` // verify | rt | pair | rel | seq | longkey
 	// verify
 	Sk      string `json:"sk,omitempty"`  // secret key, hex big-endian
 	Msg     string `json:"msg,omitempty"` // message, hex
@@ -620,6 +620,8 @@ func doPair(c *fw.Ctx, e *env, k kase) {
 	P, Q := ps[k.PI], qs[k.QI]
 	one := gtOneBytes()
 	switch k.Class {
+	case "scalar", "scalar-add":
+		doScalar(c, e, k)
 	case "bilinear":
 		a, _ := new(big.Int).SetString(k.A, 10)
 		b, _ := new(big.Int).SetString(k.B, 10)
@@ -900,6 +902,27 @@ func run(c *fw.Ctx) {
 	}
 	c.Sample(kase{Kind: "pair", Class: "bilinear", A: "5", B: nm1.String()})
 
+	// ---- part 2b: long unreduced secret keys and scalars (longkeys.go)
+	enumLong(e, func(k kase, key bool) {
+		if stop || !mine() {
+			return
+		}
+		switch k.Kind {
+		case "longkey":
+			checkLongKey(c, k)
+		case "rt":
+			checkRT(c, k)
+		default:
+			checkPair(c, e, k)
+		}
+		executed()
+	})
+	if stop {
+		finish("long keys and scalars")
+		return
+	}
+	c.Sample(kase{Kind: "longkey", Ctor: "bytes", Val: hx(pow2(257).Bytes()), Msg: hx(e.msgs[0])})
+
 	// ---- part 3: verification.  Passes are ordered by decreasing information, so a time cap drops the least informative cases:
 	// A structured lists (all contexts), B signature flips, C public-key flips, D (thorough) double flips / byte replacement.
 	identSig := make([]byte, 64)
@@ -1125,6 +1148,8 @@ func replay(c *fw.Ctx, raw json.RawMessage) {
 		checkPair(c, newEnv(c.Thorough()), k)
 	case "rel":
 		checkRelated(c, k)
+	case "longkey":
+		checkLongKey(c, k)
 	case "seq":
 		checkSeq(c, k)
 	default:
@@ -1139,6 +1164,7 @@ func main() {
 		Rule: "a case is (secret key, message, presented public-key bytes, pk parse path, presented signature bytes, sig parse path) " +
 			"or one (key, base message, structurally related message, processing order) quadruple on its own salted base bytes, " +
 			"or one call sequence (ordered pair / triple of a 6-item pool, per function family), " +
+			"or one (long unreduced secret key, constructor, message) triple, or one long scalar / scalar pair at the bn256 level, " +
 			"or one round-trip value/constructor or one pairing exponent pair; byte strings within one context are de-duplicated " +
 			"(structured mutants equal to the honest bytes, to each other, or within the enumerated flip distance are dropped), so every " +
 			"counted case is distinct by construction; non-trivial = every case except none (each presents either the honest bytes or a " +
